@@ -28,3 +28,12 @@ Proof.
   intros. apply cache_layer_refines_dict_from_empty; try assumption;
     unfold current_pcfg; rewrite ?put_evicts_first_ok, ?put_clears_ref_ok; reflexivity.
 Qed.
+
+From Memento Require Import Storage.ReadOnly Storage.ReadOnlyProofs.
+
+Theorem readonly_current_source : forall nsz ops s, Forall wfop ops -> coh s ->
+  ld (fst (rorun current_pcfg nsz s ops)) = ld s /\ snd (rorun current_pcfg nsz s ops) = ro_spec (ld s) ops.
+Proof.
+  intros. apply readonly_never_writes_and_reads_as_dict; try assumption;
+    unfold current_pcfg; rewrite ?put_evicts_first_ok, ?put_clears_ref_ok; reflexivity.
+Qed.
